@@ -15,6 +15,7 @@ type rnode struct {
 	T     string  `json:"t"` // leaf, nil, S, A (alias of stack), C
 	K     string  `json:"k,omitempty"`
 	Paren bool    `json:"paren,omitempty"`
+	Deco  int     `json:"deco,omitempty"` // 1: symbol set, 2: case-folded, 3: both + lead-once/no-padding (presentation only)
 	Kids  []rnode `json:"kids,omitempty"`
 	Ex    *rnode  `json:"ex,omitempty"` // C: stack expression (nil = leaf expression)
 }
@@ -34,6 +35,9 @@ func (n rnode) String() string {
 			return "C" + p + "{" + n.Ex.String() + "}"
 		}
 		return "C" + p
+	}
+	if n.Deco != 0 {
+		p += fmt.Sprintf("~%d", n.Deco)
 	}
 	var k []string
 	for _, c := range n.Kids {
@@ -67,6 +71,14 @@ func (n rnode) build(path string, depth, mmode int) any {
 		s := newStackKind(n.K)
 		if n.Paren {
 			s.SetParen(true)
+		}
+		switch n.Deco {
+		case 1:
+			s.SetSymbol("!")
+		case 2:
+			s.SetFold(true)
+		case 3:
+			s.SetSymbol("~").SetFold(true).SetLeadOnce(true).SetNoPadding(true)
 		}
 		if wantMutex(mmode, depth) {
 			s.SetMutex()
@@ -109,7 +121,7 @@ func takeSnap(v any) snap {
 		return snap{T: "nil"}
 	}
 	if s, ok := stackage.ConvertStack(v); ok && s.IsInit() {
-		sn := snap{T: "S", Kind: s.Kind(), Paren: s.IsParen()}
+		sn := snap{T: "S", Kind: trueKind(s), Paren: s.IsParen()}
 		for _, e := range contents(s) {
 			sn.Kids = append(sn.Kids, takeSnap(e))
 		}
@@ -125,6 +137,23 @@ func takeSnap(v any) snap {
 		return sn
 	}
 	return snap{T: "leaf", Val: fmt.Sprintf("%T:%v", v, v)}
+}
+
+// trueKind reads the stack type from the raw record: Kind() reports the symbol or the folded word.
+func trueKind(s stackage.Stack) string {
+	switch stackage.VerifDump(s).Typ {
+	case 1:
+		return "AND"
+	case 2:
+		return "OR"
+	case 3:
+		return "NOT"
+	case 4:
+		return "LIST"
+	case 6:
+		return "BASIC"
+	}
+	return s.Kind()
 }
 
 func (s snap) String() string {
@@ -366,6 +395,7 @@ func c20Run(c *Ctx, cs c20Case, count bool) {
 
 func c20Trees(c *Ctx) []rnode {
 	headers := []rnode{{T: "S", K: "AND"}, {T: "S", K: "OR", Paren: true}, {T: "S", K: "NOT"}, {T: "S", K: "NOT", Paren: true}, {T: "S", K: "LIST"}}
+	decorated := []rnode{{T: "S", K: "NOT", Deco: 1}, {T: "S", K: "NOT", Deco: 2}, {T: "S", K: "NOT", Deco: 3}, {T: "S", K: "AND", Deco: 3}, {T: "S", K: "OR", Deco: 1}}
 	atoms := []rnode{{T: "leaf"}, {T: "nil"}, {T: "S", K: "OR"}, {T: "C"}, {T: "C", Paren: true}}
 	lists := func(elems []rnode, maxW int) [][]rnode {
 		var out [][]rnode
@@ -449,6 +479,22 @@ func c20Trees(c *Ctx) []rnode {
 		for _, h := range headers[:4] {
 			h.Kids = t
 			chains(1, h)
+		}
+	}
+	// stacks whose presentation settings change what Kind() prints (symbol, case folding): wrappers,
+	// wrapped and in between
+	for _, d := range decorated {
+		for _, t := range tails {
+			in := d
+			in.Kids = t
+			for _, h := range append(append([]rnode{}, headers[:4]...), decorated...) {
+				w := h
+				w.Kids = []rnode{in}
+				trees = append(trees, rnode{T: "S", K: "AND", Kids: []rnode{in}}, rnode{T: "S", K: "OR", Kids: []rnode{{T: "leaf"}, w}}, rnode{T: "S", K: "LIST", Kids: []rnode{w, {T: "C", Ex: &in}}})
+				ww := d
+				ww.Kids = []rnode{w}
+				trees = append(trees, rnode{T: "S", K: "AND", Kids: []rnode{ww, {T: "leaf"}}})
+			}
 		}
 	}
 	return trees
